@@ -23,7 +23,7 @@ import vlib
 from vlib import log
 
 PID = "C17"
-CORE = "nodupkey,nodirid,nofragdirs"
+CORE = "nodirid,nofragdirs"
 CFGS = "default,cached,sanitize,idhint"
 
 
